@@ -203,6 +203,9 @@ def sweep(acc: Acc, tier, shard, nshards):
     for t in vocab.OBJ_TYPES:
         parents = [(None, None, False)] + [(p, k, lst) for (p, k, c, lst) in vocab.child_edges()
                                            if c == t and p != "symbolset" and not (c == "symbol" and p in ("style", "class"))]
+        # a list slot limited to one member (LEGEND / SCALEBAR LABEL) cannot hold the sibling that gives index 1
+        parents = [(p, k, lst and not any(a.shape == "objlist" and a.node.get("maxItems") == 1 for a in vocab.slots(p)[k].alts) if p else lst)
+                   for (p, k, lst) in parents]
         if tier == "quick":
             parents = parents[:2]
         for key, slot in vocab.slots(t).items():
@@ -241,6 +244,11 @@ def sweep(acc: Acc, tier, shard, nshards):
                     except Exception as e:
                         acc.violations.append({"bucket": f"sweep_load:{t}.{key}", "message": f"minimal valid document rejected: {e!s:.100}", "case": {"text": text},
                                                "search": "sweep", "shard": shard, "round": 0, "seed": env.verif_seed(), "tier": tier})
+                        continue
+                    if expected_names(d, doc[0]["t"], None):
+                        # the reference evaluator (not the code under test) says the base document is not valid:
+                        # a construction slip of this harness, outside the 'one injected fault' oracle
+                        acc.excl("sweep:base_document_not_valid")
                         continue
                     f = faults.apply_fault(ch, d, site, cand)
                     if f is None:
